@@ -145,7 +145,7 @@ def r2_helpers(ctx):
     gx = Expander(g.node)
     def _flags(e):
         return any(isinstance(x, ast.Name) and x.id == "numpy_pandas_coercible" for d in gx.closure(e) for x in ast.walk(d))
-    ok = len(uses) >= 2 and all(len(c.args) == 2 and _flags(c.args[1]) and g.positional[0] in names_in(gx.expand(c.args[0])) for c in uses)
+    ok = len(uses) >= 1 and all(len(c.args) == 2 and _flags(c.args[1]) and g.positional[0] in names_in(gx.expand(c.args[0])) for c in uses)
     ign = any(callee_last(c) == "Check" and isinstance(kw(c, "ignore_na"), ast.Constant) and kw(c, "ignore_na").value is False for c in calls_in(g.node))
     ctx.ob("R2", g, "failure cases are the elements whose coercible flag is False (nulls not ignored)", ok and ign,
            f"postprocess(data_container, check_output) x{len(uses)}; stub check ignore_na=False: {ign}")
